@@ -3,6 +3,7 @@
 package etcdraft
 
 import (
+	"fmt"
 	"context"
 	"github.com/coreos/etcd/raft"
 	"os"
@@ -234,6 +235,10 @@ type zzSyncer struct {
 func (s *zzSyncer) SyncCFTBlocks(begin, end uint64, ch chan *pb.Block) error {
 	s.calls++
 	s.requests = append(s.requests, [2]uint64{begin, end})
+	if begin > end {
+		// what the real syncer answers (calcRangeHeight refuses an empty range; see ZZH_C20_range_refuse)
+		return fmt.Errorf("calculate range height failed: the end height:%d is less than the start height:%d", end, begin)
+	}
 	var hs []uint64
 	for h := begin; h <= end; h++ {
 		hs = append(hs, h)
@@ -269,7 +274,9 @@ func (s *zzSyncer) SyncBFTBlocks(begin, end uint64, metaHash *types.Hash, ch cha
 func ZZH_C20_catchup() {
 	lastExec := uint64(2)
 	n, _ := zzNode(lastExec, zz.NewStore())
-	gap := uint64(1 + zz.Choice("gap", 4))
+	// (gap 0: the replica's ledger is already at the snapshot's height - it only missed entries that
+	// carry no block, e.g. configuration changes - the catch-up must simply find nothing to fetch)
+	gap := uint64(zz.Choice("gap", 5))
 	target := lastExec + gap
 	sy := &zzSyncer{fault: zz.Choice("fault", 4), pos: zz.Choice("faultPosition", 4)}
 	n.syncer = sy
